@@ -27,20 +27,20 @@ def run(ctx):
             return is_call(t, "::collect") and is_call(strip_refs(call_args(t)[0]), "Path::components")
 
         def row_paths(n, kinds):
+            """returning paths consistent with `n components of the given kinds` (length and element tests in any of their written forms)"""
             out = []
             for p in rets:
                 ok = True
                 for c in p.conds():
                     t = c.term
-                    if is_call(t, "Vec::len") and comps_vec(call_args(t)[0]):
-                        if c.fact[0] == "eq" and c.fact[1] != n:
-                            ok = False
-                        if c.fact[0] == "ne" and n in c.fact[1]:
+                    lf = length_fact(c)
+                    if lf is not None and comps_vec(lf[0]):
+                        if not lf[1](n):
                             ok = False
                     elif t[0] == "discr":
-                        ix = strip_refs(t[1])
-                        if is_index_call(ix) and comps_vec(call_args(ix)[0]):
-                            i = const_int(call_args(ix)[1])
+                        el = element_of(t[1])
+                        if el is not None and comps_vec(el[0]):
+                            i = el[1]
                             if i is None or kinds is None or i >= len(kinds):
                                 continue
                             d = mir.STD_VARIANTS[COMP][kinds[i]]
@@ -82,9 +82,12 @@ def run(ctx):
             a = agg_variant(v)
             flds = dict(zip(v[5], a[2]))
             n = None
-            for c in p.conds():
-                if is_call(c.term, "Vec::len") and c.fact[0] == "eq":
-                    n = c.fact[1]
+            lfs = [lf for lf in (length_fact(c) for c in p.conds()) if lf is not None and comps_vec(lf[0])]
+            cand = [k for k in range(0, 8) if all(lf[1](k) for lf in lfs)] if lfs else []
+            if len(cand) == 1:
+                n = cand[0]
+            ctx.check(n in (2, 4), "D2-VALUES", NEW, "ok-path-length", "an accepted path fixes the number of components to 2 or 4",
+                      "a path returning Ok does not fix the number of components to 2 or 4 (consistent lengths: %s)" % cand[:6], fn_span(body), nontrivial=False)
             pushes = [e for e in p.events if ev_is(e, "PathBuf::push")]
             inp = lambda t: is_call(t, "PathBuf as std::convert::From", "::from", "PathBuf::from") and strip_refs(call_args(t)[0]) == ("param", 1)
             if n == 2:
@@ -102,10 +105,15 @@ def run(ctx):
                     base = e.args[0][1][2]
 
                     def comp_i(t, i):
+                        """the text of component i: c[i].as_os_str(), or the name bound by a Normal(name) pattern on element i"""
                         cs = find_calls(t, "Component::as_os_str")
                         if len(cs) == 1:
-                            ix = strip_refs(call_args(cs[0])[0])
-                            return is_index_call(ix) and const_int(call_args(ix)[1]) == i
+                            el = element_of(call_args(cs[0])[0])
+                            return el is not None and comps_vec(el[0]) and el[1] == i
+                        nm = [x for x in subterms(t) if x[0] == "field" and x[2] == 0 and isinstance(x[1], tuple) and x[1][0] == "downcast" and x[1][2] == "Normal"]
+                        if len(nm) == 1:
+                            el = element_of(nm[0][1][1])
+                            return el is not None and comps_vec(el[0]) and el[1] == i
                         return False
                     ok = is_call(base, "::from") and comp_i(call_args(base)[0], 2) and comp_i(e.args[1], 3) and flds["short"][1] == e.args[0][1][1]
                 ctx.check(ok, "D2-VALUES", NEW, "../../category/package", "short = component 2 / component 3, full = input",
